@@ -148,10 +148,21 @@ def occurrences(stm: AST) -> list[tuple]:
     return out
 
 
+def unpooled(prg: list[AST]) -> list[AST]:
+    """pools hide the predicate of an atom (its symbol is a Pool, not a Function): analyse the unpooled statements"""
+    out: list[AST] = []
+    for stm in prg:
+        try:
+            out.extend(stm.unpool())
+        except (RuntimeError, AttributeError):
+            out.append(stm)
+    return out
+
+
 def vocabulary(prg: list[AST]) -> set:
     """all (name, arity) pairs occurring anywhere in the program (classical negation as '-name')"""
     voc = set()
-    for stm in prg:
+    for stm in unpooled(prg):
         for n in _sym_atoms(stm):
             sig = atom_sig(n)
             if sig:
@@ -163,7 +174,7 @@ def vocabulary(prg: list[AST]) -> set:
 
 def head_predicates(prg: list[AST]) -> set:
     out = set()
-    for stm in prg:
+    for stm in unpooled(prg):
         for h in positive_head_atoms(stm):
             sig = atom_sig(h)
             if sig:
@@ -174,7 +185,7 @@ def head_predicates(prg: list[AST]) -> set:
 def open_predicates(prg: list[AST]) -> set:
     """U of property C18: occurs in a rule/objective, never a positive head atom. (classical negation excluded)"""
     occ, heads = set(), set()
-    for stm in prg:
+    for stm in unpooled(prg):
         if stm.ast_type not in (ASTType.Rule, ASTType.Minimize):
             continue
         for name, arity, neg, role in occurrences(stm):
@@ -187,7 +198,7 @@ def open_predicates(prg: list[AST]) -> set:
 
 
 def has_classical_negation(prg: list[AST]) -> bool:
-    for stm in prg:
+    for stm in unpooled(prg):
         for n in _sym_atoms(stm):
             sig = atom_sig(n)
             if sig and sig[2]:
